@@ -99,12 +99,15 @@ struct Rw { std::string desc; std::string bytes; };
 
 // all single rewrites of the tree; calls f(desc, bytes) for each
 static void single_rewrites(const Node& root, bool thorough, const std::function<void(const std::string&, const std::string&)>& f) {
-    std::vector<Node*> nodes; Node work = root; visit(work, [&](Node& n) { nodes.push_back(&n); });
+    size_t count = 0; visit(root, [&](const Node&) { count++; });
     auto values = unknown_values(); static const int64_t keys[] = {24, 99, 1000, -9, -100};
     size_t vi = 0;
-    for (size_t i = 0; i < nodes.size(); i++) {
-        Node& n = *nodes[i]; Node saved = n; std::string at = "@" + std::to_string(i) + ":m" + std::to_string(n.major);
-        auto emit_ = [&](const std::string& d) { f(d + at, encode(work)); n = saved; };
+    for (size_t i = 0; i < count; i++) {
+        // every rewrite works on a fresh copy of the tree (editing kids invalidates descendants)
+        Node work = root; Node* np = nullptr; { size_t k = 0; visit(work, [&](Node& x) { if (k++ == i) np = &x; }); }
+        const Node saved = *np; std::string at = "@" + std::to_string(i) + ":m" + std::to_string(saved.major);
+        auto emit_ = [&](const std::string& d) { f(d + at, encode(work)); work = root; size_t k = 0; visit(work, [&](Node& x) { if (k++ == i) np = &x; }); };
+#define n (*np)
         // definite <-> indefinite
         if (n.major == 4 || n.major == 5) { n.indef = !n.indef; emit_(saved.indef ? "to-definite" : "to-indefinite"); }
         if (n.major == 2 || n.major == 3) {
@@ -141,16 +144,18 @@ static void single_rewrites(const Node& root, bool thorough, const std::function
     }
 }
 
+#undef n
+static void chunk_all(Node& n) { for (auto& k : n.kids) chunk_all(k); if ((n.major == 2 || n.major == 3) && !n.indef) { Node c = n; n.indef = true; n.kids = {c}; } }
 static void global_rewrites(const Node& root, const std::function<void(const std::string&, const std::string&)>& f) {
     auto values = unknown_values();
     { Node w = root; visit(w, [](Node& n) { if (n.major == 4 || n.major == 5) n.indef = true; }); f("all-containers-indefinite", encode(w)); }
     { Node w = root; visit(w, [](Node& n) { if (n.major == 4 || n.major == 5) n.indef = false; }); f("all-containers-definite", encode(w)); }
     { Node w = root; visit(w, [](Node& n) { if (n.major != 7 && !n.indef) n.ai = 27; }); f("all-heads-widest", encode(w)); }
-    { Node w = root; visit(w, [](Node& n) { if ((n.major == 2 || n.major == 3) && !n.indef) { Node c = n; n.indef = true; n.kids = {c}; } }); f("all-strings-chunked", encode(w)); }
+    { Node w = root; chunk_all(w); f("all-strings-chunked", encode(w)); }
     { Node w = root; visit(w, [](Node& n) { if (n.major == 5) { std::vector<Node> k; for (size_t i = n.kids.size(); i >= 2; i -= 2) { k.push_back(n.kids[i - 2]); k.push_back(n.kids[i - 1]); } n.kids = k; } }); f("all-maps-reversed", encode(w)); }
     for (size_t v = 0; v < values.size(); v++) { Node w = root; std::vector<Node*> maps; visit(w, [&](Node& n) { if (n.major == 5) maps.push_back(&n); });
         for (auto it = maps.rbegin(); it != maps.rend(); ++it) (*it)->kids.insert((*it)->kids.begin(), {mk_int(v & 1 ? -77 : 77), values[v]}); f("unknown-in-every-map-val" + std::to_string(v), encode(w)); }
-    { Node w = root; visit(w, [](Node& n) { if (n.major == 4 || n.major == 5) n.indef = true; if ((n.major == 2 || n.major == 3) && !n.indef) { Node c = n; n.indef = true; n.kids = {c}; } if (n.major <= 1) n.ai = 27; }); f("everything-at-once", encode(w)); }
+    { Node w = root; visit(w, [](Node& n) { if (n.major == 4 || n.major == 5) n.indef = true; if (n.major <= 1) n.ai = 27; }); chunk_all(w); f("everything-at-once", encode(w)); }
 }
 
 // =========================================================================================== mutate (C03)
@@ -164,6 +169,19 @@ static std::string bomb(int kind, size_t depth) {
     case 4: s.assign(depth, (char)0xbf); break;                                          // unterminated indefinite maps
     }
     return s;
+}
+
+// seed with an unknown key (200) inserted at the front of map node #idx whose value is a nesting bomb
+static std::string make_mapbomb(const std::string& b, size_t idx, int k, size_t d) {
+    Node root = parse_exact(b); Node* np = nullptr; { size_t c = 0; visit(root, [&](Node& x) { if (c++ == idx) np = &x; }); }
+    if (!np || np->major != 5) return "";
+    std::string payload = bomb(k, d);
+    np->kids.insert(np->kids.begin(), {mk_uint(200), mk_bstr(payload)});
+    std::string enc = encode(root);
+    std::string head; put_head(head, 2, min_ai(payload.size()), payload.size());
+    size_t p = enc.find(head + payload.substr(0, 16)); if (p == std::string::npos) return "";
+    enc.erase(p, head.size());   // drop the string head: the bomb bytes become the value itself
+    return enc;
 }
 
 int main(int argc, char** argv) {
@@ -239,7 +257,7 @@ int main(int argc, char** argv) {
 
     if (a.mode == "rewrite") {
         std::vector<std::pair<std::string, std::string>> seeds = {{"rich", seeds::rich()}, {"small", seeds::small()}, {"mid", seeds::mid()}};
-        { seeds::Opt o; o.sets = {seeds::PS(10000, 1000, 3, true), seeds::PS(3, 1, 0)}; o.blocks = 2; o.per_block = 3; o.vpriv = -1; seeds.push_back({"alt", seeds::make(o)}); }
+        { seeds::Opt o; o.sets = {seeds::PS(10000, 1000, 3, true), seeds::PS(3, 1, 0)}; o.blocks = 2; o.per_block = 3; seeds.push_back({"alt", seeds::make(o)}); }
         if (!a.replay.empty()) {
             std::string s = slurp(a.replay); size_t p = s.find("orig="), q = s.find(";variant=");
             std::string orig = unhex(s.substr(p + 5, q - p - 5)), var = unhex(s.substr(q + 9));
@@ -267,7 +285,7 @@ int main(int argc, char** argv) {
             set_note(rep.substr(0, 7000));
             // guard the generator: the independent reader must see the same data
             std::string rd; try { rd = lib::file_dump(read_file(c.bytes)); } catch (std::exception& e) { rd = std::string("ref-rejects:") + e.what(); }
-            if (rd != orig_ref[c.seed]) { R.count("generator_rejects"); R.notes.push_back("generator produced a non-equivalent file for " + c.desc + ": " + rd.substr(0, 100)); return; }
+            if (rd != orig_ref[c.seed]) { R.count("generator_rejects"); size_t dp = 0; while (dp < rd.size() && dp < orig_ref[c.seed].size() && rd[dp] == orig_ref[c.seed][dp]) dp++; R.notes.push_back("generator produced a non-equivalent file for " + c.desc + " seed " + seeds[c.seed].first + " at " + std::to_string(dp) + ": got ..." + rd.substr(dp > 40 ? dp - 40 : 0, 120) + " expected ..." + orig_ref[c.seed].substr(dp > 40 ? dp - 40 : 0, 120)); return; }
             std::string ld = lib::file_dump(lib::read_bytes(c.bytes));
             R.count("traces"); R.count("nontrivial");
             std::string kind = c.desc.substr(0, c.desc.find('@'));
@@ -287,7 +305,7 @@ int main(int argc, char** argv) {
 
     if (a.mode == "mutate") {
         std::vector<std::pair<std::string, std::string>> seeds = {{"small", seeds::small()}, {"rich", seeds::rich()}};
-        if (T) seeds.push_back({"mid", seeds::mid()});
+        if (T || !a.replay.empty()) seeds.push_back({"mid", seeds::mid()});
         struct Case { std::string desc, bytes; };
         // generated lazily per task to keep memory low: task = (family, seed, lo, hi)
         struct Task { int fam; size_t seed; size_t lo, hi; };
@@ -323,7 +341,9 @@ int main(int argc, char** argv) {
             if (hx.rfind("<long>", 0) == 0 || hx.empty()) {
                 // regenerate long cases from the description
                 size_t q = s.find("desc="); std::string d = s.substr(q + 5, s.find(';', q) - q - 5);
-                if (d.rfind("bomb", 0) == 0) { int k = atoi(d.c_str() + 4); size_t dd = strtoull(d.c_str() + d.find('d') + 1 + 0, nullptr, 10); size_t pos = d.find("-d"); dd = strtoull(d.c_str() + pos + 2, nullptr, 10); bytes = bomb(k, dd); }
+                if (d.rfind("bomb", 0) == 0) { int k = atoi(d.c_str() + 4); size_t pos = d.find("-d"); size_t dd = strtoull(d.c_str() + pos + 2, nullptr, 10); bytes = bomb(k, dd); }
+                else if (d.rfind("mapbomb", 0) == 0) { int k = d[7] - '0'; size_t pos = d.find("-d"); size_t dd = strtoull(d.c_str() + pos + 2, nullptr, 10); size_t p2 = d.find('-', pos + 2); size_t p3 = d.rfind("-n"); std::string sn = d.substr(p2 + 1, p3 - p2 - 1); size_t idx = strtoull(d.c_str() + p3 + 2, nullptr, 10);
+                    for (auto& sd : seeds) if (sd.first == sn) bytes = make_mapbomb(sd.second, idx, k, dd); if (bytes.empty()) return done(2); }
                 else if (d.rfind("exactk", 0) == 0) { size_t k = strtoull(d.c_str() + 6, nullptr, 10); std::string f = seeds::exact((k ? k : 1) * W + 50); bytes = f.substr(0, k * W); }
                 else return done(2);
             } else bytes = unhex(hx);
@@ -359,13 +379,7 @@ int main(int argc, char** argv) {
                 Node root = parse_exact(b); std::vector<Node*> nodes; visit(root, [&](Node& n) { nodes.push_back(&n); });
                 for (size_t i = t.lo; i < t.hi; i++) if (nodes[i]->major == 5) {
                     for (int k = 0; k < 4; k++) for (size_t d : {(size_t)100, (size_t)20000, (size_t)(T ? 300000 : 120000)}) {
-                        Node saved = *nodes[i]; Node val = mk_bstr(bomb(k, d)); // placeholder string, spliced raw below
-                        nodes[i]->kids.insert(nodes[i]->kids.begin(), {mk_uint(200), val});
-                        std::string enc = encode(root); *nodes[i] = saved;
-                        // replace the bstr (head + payload) by the raw bomb bytes
-                        std::string payload = bomb(k, d); std::string head; put_head(head, 2, min_ai(payload.size()), payload.size());
-                        size_t p = enc.find(head + payload.substr(0, 16)); if (p == std::string::npos) continue;
-                        enc.erase(p, head.size());
+                        std::string enc = make_mapbomb(b, i, k, d); if (enc.empty()) continue;
                         run_one("mapbomb" + std::to_string(k) + "-d" + std::to_string(d) + "-" + seeds[t.seed].first + "-n" + std::to_string(i), enc, R);
                     }
                 }
